@@ -410,4 +410,53 @@ example :
       [([88, 45, 65], [[50]])] via
     out.values hAuthorization = [[116]] ∧ out.values [88, 45, 65] = [[50]] := by decide
 
+/-- **header_flow_exact**: along any chain, under any composition of redirect.go's policies,
+the values of ANY header `k` on the (j+1)-th redirected request are exactly:
+nothing, if `k` is sensitive (Authorization, Www-Authenticate, Cookie, Cookie2), some hop so far
+left the original host's domain (Go's cross-origin rule, sticky) and no AlwaysCopy policy lists
+`k`; the original request's values otherwise. -/
+theorem header_flow_exact (ds : List PolicyDesc) (h0 : Hop) (targets : List Bytes) (k : Bytes)
+    (j : Nat) (hj : j + 1 < (runChain (ds.map PolicyDesc.denote) h0 targets).1.length) :
+    ((runChain (ds.map PolicyDesc.denote) h0 targets).1[j + 1]).hdr.values k =
+      if crossed h0.host (targets.take (j + 1)) = true ∧ isSensitive k = true ∧ copyListed ds k = false
+      then [] else h0.hdr.values k := by
+  obtain ⟨later, hs, hh⟩ := follow_headers ds h0.hdr k targets { via := { first := h0 } } rfl
+  have hsent : (runChain (ds.map PolicyDesc.denote) h0 targets).1 = h0 :: later := by
+    simpa [runChain, Via.toList] using hs
+  have hj' : j < later.length := by rw [hsent] at hj; simpa using hj
+  have := hh j hj'
+  simp only [Bool.false_or] at this
+  simpa [hsent] using this
+
+/-- **sensitive_arrives_only_if** (credentials): a redirected request carries a sensitive header
+only if every hop so far stayed within the original host or its subdomains, or the caller
+explicitly listed that header in an AlwaysCopyHeaderRedirectPolicy — and by
+`no_request_without_permission` only hosts every policy accepts get a request in the first
+place. -/
+theorem sensitive_arrives_only_if (ds : List PolicyDesc) (h0 : Hop) (targets : List Bytes) (k : Bytes)
+    (hk : isSensitive k = true)
+    (j : Nat) (hj : j + 1 < (runChain (ds.map PolicyDesc.denote) h0 targets).1.length)
+    (harr : ((runChain (ds.map PolicyDesc.denote) h0 targets).1[j + 1]).hdr.values k ≠ []) :
+    crossed h0.host (targets.take (j + 1)) = false ∨ copyListed ds k = true := by
+  rw [header_flow_exact ds h0 targets k j hj] at harr
+  cases hc : crossed h0.host (targets.take (j + 1)) with
+  | false => exact Or.inl rfl
+  | true =>
+    cases hl : copyListed ds k with
+    | true => exact Or.inr rfl
+    | false => simp [hc, hk, hl] at harr
+
+/-- a.com → b.com → a.com with `Authorization: t`, SameDomain not configured, Max(5):
+b.com does not get the token, and neither does a.com afterwards (sticky); with
+AlwaysCopy("authorization") both do. -/
+example :
+    let a : Bytes := [97, 46, 99, 111, 109]
+    let b : Bytes := [98, 46, 99, 111, 109]
+    let h0 : Hop := ⟨a, [(hAuthorization, [[116]])]⟩
+    ((runChain ([PolicyDesc.max 5].map PolicyDesc.denote) h0 [b, a]).1.map
+        fun h => h.hdr.values hAuthorization) = [[[116]], [], []] ∧
+    ((runChain ([PolicyDesc.max 5, .alwaysCopy [[97,117,116,104,111,114,105,122,97,116,105,111,110]]].map
+        PolicyDesc.denote) h0 [b, a]).1.map
+        fun h => h.hdr.values hAuthorization) = [[[116]], [[116]], [[116]]] := by decide
+
 end Req.Props.C11
